@@ -1,168 +1,250 @@
 //! k_lin_*: linear limb arithmetic of Fq / Fr through the PUBLIC operator forms, dev-profile
 //! semantics, against the independent reference of common.rs. Inputs: arbitrary stored limbs < p.
 use crate::common::*;
+use crate::{cover, harnesses};
+use core::ops::*;
 use sm9_core::verif_hooks::FieldElement;
 
-macro_rules! lin_family {
-    ($m:ident, $P:expr, $pubty:ty, $mk:expr, $raw:expr, $rawmk:expr, $rawraw:expr) => {
-        pub mod $m {
-            use super::*;
+/// the two prime fields, seen through the public wrapper type and through the internal type
+pub trait FieldK {
+    const P: [u64; 4];
+    type Pub: Copy
+        + Add<Output = Self::Pub>
+        + Sub<Output = Self::Pub>
+        + Mul<Output = Self::Pub>
+        + Neg<Output = Self::Pub>
+        + for<'a> Add<&'a Self::Pub, Output = Self::Pub>
+        + for<'a> Sub<&'a Self::Pub, Output = Self::Pub>
+        + for<'a> Mul<&'a Self::Pub, Output = Self::Pub>
+        + AddAssign
+        + SubAssign
+        + MulAssign
+        + for<'a> AddAssign<&'a Self::Pub>
+        + for<'a> SubAssign<&'a Self::Pub>
+        + for<'a> MulAssign<&'a Self::Pub>;
+    type Raw: FieldElement;
+    fn mk(l: [u64; 4]) -> Self::Pub;
+    fn raw(x: &Self::Pub) -> [u64; 4];
+    fn rmk(l: [u64; 4]) -> Self::Raw;
+    fn rraw(x: &Self::Raw) -> [u64; 4];
+    fn add_rr(x: &Self::Pub, y: &Self::Pub) -> Self::Pub;
+    fn add_rv(x: &Self::Pub, y: Self::Pub) -> Self::Pub;
+    fn sub_rr(x: &Self::Pub, y: &Self::Pub) -> Self::Pub;
+    fn sub_rv(x: &Self::Pub, y: Self::Pub) -> Self::Pub;
+    fn mul_rr(x: &Self::Pub, y: &Self::Pub) -> Self::Pub;
+    fn mul_rv(x: &Self::Pub, y: Self::Pub) -> Self::Pub;
+    fn neg_r(x: &Self::Pub) -> Self::Pub;
+    fn is_zero(x: &Self::Pub) -> bool;
+    fn inverse(x: &Self::Pub) -> Option<Self::Pub>;
+}
+pub struct KFq;
+pub struct KFr;
+macro_rules! impl_fieldk {
+    ($k:ident, $P:expr, $pubty:ty, $rawty:ty, $wrap:ident, $inner:ident, $from_raw:ident, $to_raw:ident) => {
+        impl FieldK for $k {
+            const P: [u64; 4] = $P;
+            type Pub = $pubty;
+            type Raw = $rawty;
             fn mk(l: [u64; 4]) -> $pubty {
-                $mk(l)
+                $wrap($from_raw(l))
             }
             fn raw(x: &$pubty) -> [u64; 4] {
-                $raw(x)
+                $to_raw(&$inner(x))
             }
-            #[kani::proof]
-            #[kani::unwind(6)]
-            #[kani::stub(core::arch::x86_64::_addcarry_u64, addcarry_stub)]
-            #[kani::stub(core::arch::x86_64::_subborrow_u64, subborrow_stub)]
-            fn add() {
-                let (a, b) = (any_below(&$P), any_below(&$P));
-                let (x, y) = (mk(a), mk(b));
-                let want = ref_add(&a, &b, &$P);
-                assert!(lt(&want, &$P));
-                assert!(eq4(&raw(&(x + y)), &want));
-                assert!(eq4(&raw(&(&x + &y)), &want));
-                assert!(eq4(&raw(&(x + &y)), &want));
-                assert!(eq4(&raw(&(&x + y)), &want));
-                let mut z = x;
-                z += y;
-                assert!(eq4(&raw(&z), &want));
-                let mut z = x;
-                z += &y;
-                assert!(eq4(&raw(&z), &want));
-                kani::cover!(add5(&a, &b)[4] == 1, "carry out of the top limb");
-                kani::cover!(eq4(&want, &[0; 4]) && !is0(&a), "sum equal to the modulus");
+            fn rmk(l: [u64; 4]) -> $rawty {
+                $from_raw(l)
             }
-            #[kani::proof]
-            #[kani::unwind(6)]
-            #[kani::stub(core::arch::x86_64::_addcarry_u64, addcarry_stub)]
-            #[kani::stub(core::arch::x86_64::_subborrow_u64, subborrow_stub)]
-            fn sub() {
-                let (a, b) = (any_below(&$P), any_below(&$P));
-                let (x, y) = (mk(a), mk(b));
-                let want = ref_sub(&a, &b, &$P);
-                assert!(lt(&want, &$P));
-                assert!(eq4(&raw(&(x - y)), &want));
-                assert!(eq4(&raw(&(&x - &y)), &want));
-                assert!(eq4(&raw(&(x - &y)), &want));
-                assert!(eq4(&raw(&(&x - y)), &want));
-                let mut z = x;
-                z -= y;
-                assert!(eq4(&raw(&z), &want));
-                let mut z = x;
-                z -= &y;
-                assert!(eq4(&raw(&z), &want));
-                kani::cover!(lt(&a, &b), "borrow path");
+            fn rraw(x: &$rawty) -> [u64; 4] {
+                $to_raw(x)
             }
-            #[kani::proof]
-            #[kani::unwind(6)]
-            #[kani::stub(core::arch::x86_64::_addcarry_u64, addcarry_stub)]
-            #[kani::stub(core::arch::x86_64::_subborrow_u64, subborrow_stub)]
-            fn neg() {
-                let a = any_below(&$P);
-                let x = mk(a);
-                let want = ref_neg(&a, &$P);
-                assert!(lt(&want, &$P));
-                assert!(eq4(&raw(&(-x)), &want));
-                assert!(eq4(&raw(&(-&x)), &want));
-                // zero test is exactly "all limbs zero"
-                assert!(x.is_zero() == is0(&a));
-                kani::cover!(is0(&a), "neg of zero");
+            fn add_rr(x: &$pubty, y: &$pubty) -> $pubty {
+                x + y
             }
-            // multiplicative operator forms all reach U256::mul(self, other, modulus, inv) with the
-            // operands in this order (the kernel itself is decided by engine L)
-            #[kani::proof]
-            #[kani::unwind(6)]
-            #[kani::stub(core::arch::x86_64::_addcarry_u64, addcarry_stub)]
-            #[kani::stub(core::arch::x86_64::_subborrow_u64, subborrow_stub)]
-            #[kani::stub(sm9_core::verif_hooks::U256::mul, mul_tag)]
-            fn mul_forms() {
-                let (a, b) = (any_below(&$P), any_below(&$P));
-                let (x, y) = (mk(a), mk(b));
-                let mut want = U256::from(a);
-                want.mul(&U256::from(b), &U256::from($P), 0);
-                // inv is a constant of the field; obtain it from the value-form and demand the
-                // same from all others
-                let w = raw(&(x * y));
-                let t = tagf(&a, &b);
-                assert!(w[0] == t[0] ^ $P[0] && w[2] == t[2] && w[3] == t[3]);
-                assert!(eq4(&raw(&(&x * &y)), &w));
-                assert!(eq4(&raw(&(x * &y)), &w));
-                assert!(eq4(&raw(&(&x * y)), &w));
-                let mut z = x;
-                z *= y;
-                assert!(eq4(&raw(&z), &w));
-                let mut z = x;
-                z *= &y;
-                assert!(eq4(&raw(&z), &w));
+            fn add_rv(x: &$pubty, y: $pubty) -> $pubty {
+                x + y
             }
-            // raw-level double / triple / (Fq) div2 of the internal field type
-            #[kani::proof]
-            #[kani::unwind(6)]
-            #[kani::stub(core::arch::x86_64::_addcarry_u64, addcarry_stub)]
-            #[kani::stub(core::arch::x86_64::_subborrow_u64, subborrow_stub)]
-            fn double_triple() {
-                let a = any_below(&$P);
-                let x = $rawmk(a);
-                let d = ref_add(&a, &a, &$P);
-                let t = ref_add(&d, &a, &$P);
-                assert!(eq4(&$rawraw(&x.double()), &d));
-                assert!(eq4(&$rawraw(&x.triple()), &t));
-                assert!(lt(&d, &$P) && lt(&t, &$P));
-                kani::cover!(a[3] >> 63 == 1, "doubling overflows 2^256");
+            fn sub_rr(x: &$pubty, y: &$pubty) -> $pubty {
+                x - y
             }
-            // inverse(): None exactly for zero; otherwise invert() is entered with a non-zero
-            // value below the modulus (contract stub asserts it) and its result is returned
-            #[kani::proof]
-            #[kani::unwind(6)]
-            #[kani::stub(core::arch::x86_64::_addcarry_u64, addcarry_stub)]
-            #[kani::stub(core::arch::x86_64::_subborrow_u64, subborrow_stub)]
-            #[kani::stub(sm9_core::verif_hooks::U256::invert, invert_havoc)]
-            fn inverse_none_iff_zero() {
-                let a = any_below(&$P);
-                let x = mk(a);
-                let r = x.inverse();
-                assert!(r.is_none() == is0(&a));
-                if let Some(i) = r {
-                    assert!(lt(&raw(&i), &$P));
-                }
+            fn sub_rv(x: &$pubty, y: $pubty) -> $pubty {
+                x - y
+            }
+            fn mul_rr(x: &$pubty, y: &$pubty) -> $pubty {
+                x * y
+            }
+            fn mul_rv(x: &$pubty, y: $pubty) -> $pubty {
+                x * y
+            }
+            fn neg_r(x: &$pubty) -> $pubty {
+                -x
+            }
+            fn is_zero(x: &$pubty) -> bool {
+                x.is_zero()
+            }
+            fn inverse(x: &$pubty) -> Option<$pubty> {
+                x.inverse()
             }
         }
     };
 }
+impl_fieldk!(KFq, Q, sm9_core::Fq, RawFq, pub_fq, pub_fq_inner, fq_from_raw, fq_raw);
+impl_fieldk!(KFr, R, sm9_core::Fr, RawFr, pub_fr, pub_fr_inner, fr_from_raw, fr_raw);
 
-lin_family!(
-    k_lin_fq,
-    Q,
-    sm9_core::Fq,
-    |l| pub_fq(fq_from_raw(l)),
-    |x: &sm9_core::Fq| fq_raw(&pub_fq_inner(x)),
-    fq_from_raw,
-    fq_raw
-);
-lin_family!(
-    k_lin_fr,
-    R,
-    sm9_core::Fr,
-    |l| pub_fr(fr_from_raw(l)),
-    |x: &sm9_core::Fr| fr_raw(&pub_fr_inner(x)),
-    fr_from_raw,
-    fr_raw
-);
+fn lin_add<K: FieldK>() {
+    let (a, b) = (any_below(&K::P), any_below(&K::P));
+    let (x, y) = (K::mk(a), K::mk(b));
+    let want = ref_add(&a, &b, &K::P);
+    assert!(lt(&want, &K::P));
+    assert!(eq4(&K::raw(&(x + y)), &want), "a + b");
+    assert!(eq4(&K::raw(&K::add_rr(&x, &y)), &want), "&a + &b");
+    assert!(eq4(&K::raw(&(x + &y)), &want), "a + &b");
+    assert!(eq4(&K::raw(&K::add_rv(&x, y)), &want), "&a + b");
+    let mut z = x;
+    z += y;
+    assert!(eq4(&K::raw(&z), &want), "a += b");
+    let mut z = x;
+    z += &y;
+    assert!(eq4(&K::raw(&z), &want), "a += &b");
+    cover!(add5(&a, &b)[4] == 1, "carry out of the top limb");
+    cover!(is0(&want) && !is0(&a), "sum equal to the modulus");
+}
+fn lin_sub<K: FieldK>() {
+    let (a, b) = (any_below(&K::P), any_below(&K::P));
+    let (x, y) = (K::mk(a), K::mk(b));
+    let want = ref_sub(&a, &b, &K::P);
+    assert!(lt(&want, &K::P));
+    assert!(eq4(&K::raw(&(x - y)), &want), "a - b");
+    assert!(eq4(&K::raw(&K::sub_rr(&x, &y)), &want), "&a - &b");
+    assert!(eq4(&K::raw(&(x - &y)), &want), "a - &b");
+    assert!(eq4(&K::raw(&K::sub_rv(&x, y)), &want), "&a - b");
+    let mut z = x;
+    z -= y;
+    assert!(eq4(&K::raw(&z), &want), "a -= b");
+    let mut z = x;
+    z -= &y;
+    assert!(eq4(&K::raw(&z), &want), "a -= &b");
+    cover!(lt(&a, &b), "borrow path");
+}
+fn lin_neg<K: FieldK>() {
+    let a = any_below(&K::P);
+    let x = K::mk(a);
+    let want = ref_neg(&a, &K::P);
+    assert!(lt(&want, &K::P));
+    assert!(eq4(&K::raw(&(-x)), &want), "-a");
+    assert!(eq4(&K::raw(&K::neg_r(&x)), &want), "-&a");
+    // the zero test is exactly "all limbs zero" (with L-dec: value 0)
+    assert!(K::is_zero(&x) == is0(&a), "is_zero");
+    cover!(is0(&a), "neg of zero");
+}
+// Every multiplicative operator form reaches the kernel U256::mul(self, other, modulus, inv) with
+// the operands in this order. Under Kani the kernel is replaced by a cheap deterministic
+// non-commutative tag (the kernel itself is decided by engine L); natively the real kernel runs
+// and the forms are compared with each other.
+fn lin_mul_forms<K: FieldK>() {
+    let (a, b) = (any_below(&K::P), any_below(&K::P));
+    let (x, y) = (K::mk(a), K::mk(b));
+    let w = K::raw(&(x * y));
+    #[cfg(kani)]
+    {
+        let t = tagf(&a, &b);
+        assert!(w[0] == t[0] ^ K::P[0] && w[2] == t[2] && w[3] == t[3], "a * b operands");
+    }
+    assert!(eq4(&K::raw(&K::mul_rr(&x, &y)), &w), "&a * &b");
+    assert!(eq4(&K::raw(&(x * &y)), &w), "a * &b");
+    assert!(eq4(&K::raw(&K::mul_rv(&x, y)), &w), "&a * b");
+    let mut z = x;
+    z *= y;
+    assert!(eq4(&K::raw(&z), &w), "a *= b");
+    let mut z = x;
+    z *= &y;
+    assert!(eq4(&K::raw(&z), &w), "a *= &b");
+}
+fn lin_double_triple<K: FieldK>() {
+    let a = any_below(&K::P);
+    let x = K::rmk(a);
+    let d = ref_add(&a, &a, &K::P);
+    let t = ref_add(&d, &a, &K::P);
+    assert!(eq4(&K::rraw(&x.double()), &d), "double");
+    assert!(eq4(&K::rraw(&x.triple()), &t), "triple");
+    assert!(lt(&d, &K::P) && lt(&t, &K::P));
+    cover!(a[3] >> 63 == 1, "doubling overflows 2^256");
+}
+// inverse(): None exactly for zero; otherwise invert() is entered with a non-zero value (the
+// contract stub asserts it) and its (canonical) result is what is returned
+fn lin_inverse_none_iff_zero<K: FieldK>() {
+    let a = any_below(&K::P);
+    let x = K::mk(a);
+    let r = K::inverse(&x);
+    assert!(r.is_none() == is0(&a), "inverse is None exactly for zero");
+    if let Some(i) = r {
+        assert!(lt(&K::raw(&i), &K::P), "inverse canonical");
+    }
+}
 
-#[kani::proof]
-#[kani::unwind(6)]
-#[kani::stub(core::arch::x86_64::_addcarry_u64, addcarry_stub)]
-#[kani::stub(core::arch::x86_64::_subborrow_u64, subborrow_stub)]
-fn k_lin_fq_div2() {
-    let a = any_below(&Q);
-    let x = fq_from_raw(a);
-    let h = ref_half(&a, &Q);
-    assert!(eq4(&fq_raw(&x.div2()), &h));
-    assert!(lt(&h, &Q));
-    // and doubling it gives a back
-    assert!(eq4(&ref_add(&h, &h, &Q), &a));
-    kani::cover!(a[0] & 1 == 1 && add5(&a, &Q)[4] == 1, "odd with carry into bit 256");
+harnesses! { registry;
+    #[kani::unwind(6)]
+    #[kani::stub(core::arch::x86_64::_addcarry_u64, addcarry_stub)]
+    #[kani::stub(core::arch::x86_64::_subborrow_u64, subborrow_stub)]
+    fn k_lin_fq_add() { lin_add::<KFq>() }
+    #[kani::unwind(6)]
+    #[kani::stub(core::arch::x86_64::_addcarry_u64, addcarry_stub)]
+    #[kani::stub(core::arch::x86_64::_subborrow_u64, subborrow_stub)]
+    fn k_lin_fr_add() { lin_add::<KFr>() }
+    #[kani::unwind(6)]
+    #[kani::stub(core::arch::x86_64::_addcarry_u64, addcarry_stub)]
+    #[kani::stub(core::arch::x86_64::_subborrow_u64, subborrow_stub)]
+    fn k_lin_fq_sub() { lin_sub::<KFq>() }
+    #[kani::unwind(6)]
+    #[kani::stub(core::arch::x86_64::_addcarry_u64, addcarry_stub)]
+    #[kani::stub(core::arch::x86_64::_subborrow_u64, subborrow_stub)]
+    fn k_lin_fr_sub() { lin_sub::<KFr>() }
+    #[kani::unwind(6)]
+    #[kani::stub(core::arch::x86_64::_addcarry_u64, addcarry_stub)]
+    #[kani::stub(core::arch::x86_64::_subborrow_u64, subborrow_stub)]
+    fn k_lin_fq_neg() { lin_neg::<KFq>() }
+    #[kani::unwind(6)]
+    #[kani::stub(core::arch::x86_64::_addcarry_u64, addcarry_stub)]
+    #[kani::stub(core::arch::x86_64::_subborrow_u64, subborrow_stub)]
+    fn k_lin_fr_neg() { lin_neg::<KFr>() }
+    #[kani::unwind(6)]
+    #[kani::stub(core::arch::x86_64::_addcarry_u64, addcarry_stub)]
+    #[kani::stub(core::arch::x86_64::_subborrow_u64, subborrow_stub)]
+    #[kani::stub(sm9_core::verif_hooks::U256::mul, mul_tag)]
+    fn k_lin_fq_mul_forms() { lin_mul_forms::<KFq>() }
+    #[kani::unwind(6)]
+    #[kani::stub(core::arch::x86_64::_addcarry_u64, addcarry_stub)]
+    #[kani::stub(core::arch::x86_64::_subborrow_u64, subborrow_stub)]
+    #[kani::stub(sm9_core::verif_hooks::U256::mul, mul_tag)]
+    fn k_lin_fr_mul_forms() { lin_mul_forms::<KFr>() }
+    #[kani::unwind(6)]
+    #[kani::stub(core::arch::x86_64::_addcarry_u64, addcarry_stub)]
+    #[kani::stub(core::arch::x86_64::_subborrow_u64, subborrow_stub)]
+    fn k_lin_fq_double_triple() { lin_double_triple::<KFq>() }
+    #[kani::unwind(6)]
+    #[kani::stub(core::arch::x86_64::_addcarry_u64, addcarry_stub)]
+    #[kani::stub(core::arch::x86_64::_subborrow_u64, subborrow_stub)]
+    fn k_lin_fr_double_triple() { lin_double_triple::<KFr>() }
+    #[kani::unwind(6)]
+    #[kani::stub(core::arch::x86_64::_addcarry_u64, addcarry_stub)]
+    #[kani::stub(core::arch::x86_64::_subborrow_u64, subborrow_stub)]
+    #[kani::stub(sm9_core::verif_hooks::U256::invert, invert_havoc)]
+    fn k_lin_fq_inverse_none_iff_zero() { lin_inverse_none_iff_zero::<KFq>() }
+    #[kani::unwind(6)]
+    #[kani::stub(core::arch::x86_64::_addcarry_u64, addcarry_stub)]
+    #[kani::stub(core::arch::x86_64::_subborrow_u64, subborrow_stub)]
+    #[kani::stub(sm9_core::verif_hooks::U256::invert, invert_havoc)]
+    fn k_lin_fr_inverse_none_iff_zero() { lin_inverse_none_iff_zero::<KFr>() }
+    #[kani::unwind(6)]
+    #[kani::stub(core::arch::x86_64::_addcarry_u64, addcarry_stub)]
+    #[kani::stub(core::arch::x86_64::_subborrow_u64, subborrow_stub)]
+    fn k_lin_fq_div2() {
+        let a = any_below(&Q);
+        let x = fq_from_raw(a);
+        let h = ref_half(&a, &Q);
+        assert!(eq4(&fq_raw(&x.div2()), &h), "div2");
+        assert!(lt(&h, &Q));
+        // doubling it gives a back (sanity of the reference itself)
+        assert!(eq4(&ref_add(&h, &h, &Q), &a));
+        cover!(a[0] & 1 == 1 && add5(&a, &Q)[4] == 1, "odd with carry into bit 256");
+    }
 }
